@@ -420,6 +420,7 @@ type stats struct {
 	Exhaustive  bool     `json:"exhaustive"`
 	Rechecked   int      `json:"determinism_rechecks"`
 	Unstable    int      `json:"unstable"`
+	Retried     int      `json:"executions_repeated_after_a_worker_stall"`
 	Known       []string `json:"known_findings_hit,omitempty"`
 	WallS       float64  `json:"wall_s"`
 }
@@ -592,6 +593,7 @@ func (s *Suite) Main() {
 		tot.Transitions += st.Transitions
 		tot.Nontrivial += st.Nontrivial
 		tot.Rechecked += st.Rechecked
+		tot.Retried += st.Retried
 		tot.Unstable += st.Unstable
 	}
 	cov := map[string]any{
@@ -701,7 +703,7 @@ func (s *Suite) explore(sc *Scenario, tier string, seed int64, deadline time.Tim
 	if nw < 1 {
 		nw = 1
 	}
-	stall := time.Duration(envInt("VERIF_STALL_S", 60)) * time.Second
+	stall := time.Duration(envInt("VERIF_STALL_S", 120)) * time.Second
 	recheckEvery := 97 + int(seed%53)
 	if sc.Remote {
 		recheckEvery = 29 + int(seed%13)
@@ -804,6 +806,23 @@ func (s *Suite) explore(sc *Scenario, tier string, seed int64, deadline time.Tim
 			res, alive := w.call(request{Scenario: sc.Name, Prefix: prefix, Keep: keep}, stall)
 			if !alive {
 				w = nil
+			}
+			// A stall (no answer within the real-time liveness limit) or a worker that vanished without a
+			// message may be the machine's doing (load, memory pressure), not the code's: such an execution is
+			// repeated once on a fresh worker and only a repeated failure is believed.
+			if res.Crash != "" && (strings.HasPrefix(res.Crash, "stall:") || strings.TrimSpace(strings.TrimPrefix(res.Crash, "worker died:")) == "") {
+				var err error
+				if w, err = startWorker(s.T.Name()); err != nil {
+					return Result{Harness: "cannot start worker: " + err.Error()}
+				}
+				res2, alive2 := w.call(request{Scenario: sc.Name, Prefix: prefix, Keep: keep}, 3*stall)
+				if !alive2 {
+					w = nil
+				}
+				mu.Lock()
+				st.Retried++
+				mu.Unlock()
+				return res2
 			}
 			return res
 		}
